@@ -80,9 +80,13 @@ def alternative_or_next(type_: Union[RDREdge.Alternative, RDREdge.Next],
     """
     new_branch = chained_logic(AND, *conditions)
     current_node = SymbolicExpression._current_parent_()
-    if isinstance(current_node._parent_, (Alternative, Next)):
+    if isinstance(current_node._parent_, (Alternative, Next)) and current_node is current_node._parent_.right:
+        # the current node is itself an alternative/next branch, the new branch comes after the node it belongs to.
         current_node = current_node._parent_
-    elif isinstance(current_node._parent_, ExceptIf) and current_node is current_node._parent_.left:
+    # climb over everything that has been attached to the current node since its block was opened (its refinement
+    # and the alternatives written before this one in the same block), the new branch comes after all of them.
+    while (isinstance(current_node._parent_, (Alternative, Next, ExceptIf))
+           and current_node is current_node._parent_.left):
         current_node = current_node._parent_
     prev_parent = current_node._parent_
     current_node._parent_ = None
@@ -95,5 +99,8 @@ def alternative_or_next(type_: Union[RDREdge.Alternative, RDREdge.Next],
     new_branch._node_.weight = type_
     new_conditions_root._parent_ = prev_parent
     if isinstance(prev_parent, BinaryOperator):
-        prev_parent.right = new_conditions_root
+        if prev_parent.left is current_node:
+            prev_parent.left = new_conditions_root
+        else:
+            prev_parent.right = new_conditions_root
     return new_conditions_root.right
